@@ -1205,6 +1205,16 @@ func lockstep(p *Prog, x, y ssa.Value, seen map[[2]ssa.Value]bool, depth int) (b
 			}
 		}
 		return n > 0, fmt.Sprintf("results #%d and #%d of %s are built in lockstep", a.Index, b.Index, p.FuncName(callee))
+	case *ssa.Field:
+		// two fields of one struct value (a pair of slices returned together as a struct)
+		b, ok := y.(*ssa.Field)
+		if !ok || a.X != b.X {
+			return false, ""
+		}
+		if structFieldsLockstep(p, a.X, a.Field, b.Field, seen, depth+1) {
+			return true, fmt.Sprintf("fields #%d and #%d of the struct are filled in lockstep wherever it is built", a.Field, b.Field)
+		}
+		return false, ""
 	case *ssa.Phi:
 		b, ok := y.(*ssa.Phi)
 		if !ok || a.Block() != b.Block() || len(a.Edges) != len(b.Edges) {
@@ -1282,6 +1292,40 @@ func lockstep(p *Prog, x, y ssa.Value, seen map[[2]ssa.Value]bool, depth int) (b
 		if !ok {
 			return false, ""
 		}
+		if f1, ok1 := a.X.(*ssa.FieldAddr); ok1 {
+			if f2, ok2 := b.X.(*ssa.FieldAddr); ok2 && f1.X == f2.X {
+				// fields of one struct-typed local that is only ever assigned as a whole
+				if al, isAl := f1.X.(*ssa.Alloc); isAl && al.Referrers() != nil {
+					n := 0
+					for _, ref := range *al.Referrers() {
+						switch r := ref.(type) {
+						case *ssa.Store:
+							if r.Addr != ssa.Value(al) || !structFieldsLockstep(p, r.Val, f1.Field, f2.Field, seen, depth+1) {
+								return false, ""
+							}
+							n++
+						case *ssa.FieldAddr:
+							if r.Referrers() != nil {
+								for _, r2 := range *r.Referrers() {
+									if _, isLoad := r2.(*ssa.UnOp); !isLoad {
+										if _, isDbg := r2.(*ssa.DebugRef); !isDbg {
+											return false, "" // a field is written or its address escapes
+										}
+									}
+								}
+							}
+						case *ssa.UnOp, *ssa.DebugRef:
+						default:
+							return false, ""
+						}
+					}
+					if n > 0 {
+						return true, fmt.Sprintf("fields #%d and #%d of a struct that is filled in lockstep wherever it is built", f1.Field, f2.Field)
+					}
+					return false, ""
+				}
+			}
+		}
 		al1, al2 := cellRootOf(p, a.X), cellRootOf(p, b.X)
 		if al1 == nil || al2 == nil {
 			return false, ""
@@ -1298,6 +1342,113 @@ func lockstep(p *Prog, x, y ssa.Value, seen map[[2]ssa.Value]bool, depth int) (b
 		return true, "cells stored in lockstep"
 	}
 	return false, ""
+}
+
+// structFieldsLockstep: wherever the struct value sv comes from, its fields fa and fb hold slices of equal length.
+func structFieldsLockstep(p *Prog, sv ssa.Value, fa, fb int, seen map[[2]ssa.Value]bool, depth int) bool {
+	if depth > 12 {
+		return false
+	}
+	k := [2]ssa.Value{sv, nil}
+	if seen[k] {
+		return true
+	}
+	seen[k] = true
+	fromCall := func(c *ssa.Call, idx int) bool {
+		callee := c.Common().StaticCallee()
+		if callee == nil || !p.InRepo(callee) || callee.Blocks == nil {
+			return false
+		}
+		n := 0
+		for _, bl := range callee.Blocks {
+			ret, ok := bl.Instrs[len(bl.Instrs)-1].(*ssa.Return)
+			if !ok {
+				continue
+			}
+			n++
+			if !structFieldsLockstep(p, retValue(ret, idx), fa, fb, seen, depth+1) {
+				return false
+			}
+		}
+		return n > 0
+	}
+	switch x := sv.(type) {
+	case *ssa.Const:
+		return x.Value == nil // the zero struct: both fields nil
+	case *ssa.Extract:
+		if c, ok := x.Tuple.(*ssa.Call); ok {
+			return fromCall(c, x.Index)
+		}
+	case *ssa.Call:
+		return fromCall(x, 0)
+	case *ssa.Phi:
+		for _, e := range x.Edges {
+			if !structFieldsLockstep(p, e, fa, fb, seen, depth+1) {
+				return false
+			}
+		}
+		return true
+	case *ssa.UnOp:
+		al, ok := x.X.(*ssa.Alloc)
+		if !ok || x.Op != token.MUL || al.Referrers() == nil {
+			return false
+		}
+		// a result cell (functions with defer or a range-over-func loop keep results in cells that closures may
+		// assign): every value stored as a whole must itself be in lockstep
+		if whole := cellStores(al); len(whole) > 0 {
+			for _, ref := range *al.Referrers() {
+				if _, isFA := ref.(*ssa.FieldAddr); isFA {
+					return false // mixed whole and field-wise assignment
+				}
+			}
+			for _, w := range whole {
+				if !structFieldsLockstep(p, w, fa, fb, seen, depth+1) {
+					return false
+				}
+			}
+			return true
+		}
+		// a composite literal: the fields are stored one by one into a fresh local, which is then read as a whole
+		var va, vb ssa.Value
+		for _, ref := range *al.Referrers() {
+			switch r := ref.(type) {
+			case *ssa.FieldAddr:
+				if r.Referrers() == nil {
+					continue
+				}
+				for _, r2 := range *r.Referrers() {
+					st, isSt := r2.(*ssa.Store)
+					if !isSt || st.Addr != ssa.Value(r) {
+						return false // the field's address is used for something else
+					}
+					switch r.Field {
+					case fa:
+						if va != nil {
+							return false
+						}
+						va = st.Val
+					case fb:
+						if vb != nil {
+							return false
+						}
+						vb = st.Val
+					}
+				}
+			case *ssa.UnOp, *ssa.DebugRef:
+			default:
+				return false
+			}
+		}
+		if va == nil && vb == nil {
+			return true // both left at their zero value
+		}
+		if va == nil || vb == nil {
+			return false
+		}
+		ok2, _ := lockstep(p, va, vb, seen, depth+1)
+		return ok2
+	}
+	return false
 }
 
 func literalLen(s *ssa.Slice) (int64, bool) {
